@@ -114,6 +114,12 @@ def run(ctx):
         # of the loop it just spawned (on a spawner whose handle owns the task that cancels the actor before started())
         from props import c18
         c18.check_consume(ctx, fx, cfg, 3, "R03.5")
+        # R03.6 (shared with C05) the graceful end "last strong handle dropped" can actually occur: the library's own timer
+        # futures hold the actor weakly while they sleep (two timers that each hold an upgraded sender across their sleep keep
+        # each other and the actor alive for ever: stopped() never runs)
+        if cfg != "bare":
+            from props import c05
+            core.shared(ctx, "R03.6", c05.check_timers_own_nothing, ctx, fx, cfg, "R03.6")
         A = loops.lifecycle_alphabet()
         strategies = loops.find_refresh(fx)
         ctx.floor("R03.3", "RestartStrategy::refresh impls in cfg %s" % cfg, len(strategies), 3)
